@@ -257,6 +257,19 @@ CLAIMS["C12"] = dict(
     technique="TLC-enumerated option/feature combinations executed on constructed and sample models; TLA+ conversion relation evaluated by TLC on every record",
     design="DESIGN.md §3.4, §4 C12")
 
+CLAIMS["C11"] = dict(
+    category="model_checking",
+    text=("NifCopy.tla is a two-model machine (source, copy): copy by constructor or by assignment over an existing model, then every "
+          "interleaving of up to 2 (thorough: 3) steps of seven edit kinds, raw/default saves and destruction on either side. TLC explores "
+          "all behaviours and exports them; the harness executes each on real models - LE and Oblivion models whose shapes hold a cached "
+          "pointer into a separate geometry block, SE, FO4 (thorough: collision and animated files) - under AddressSanitizer, and logs per "
+          "step the projection of both sides (all query answers + block graph with payload content ids), byte equality of the saves right "
+          "after the copy, and shapes whose cached geometry pointer is not their own model's block. TLC (NifCopyTrace) judges CopyEqual, "
+          "Frame and NoForeign; sanitizer reports become Crash records."),
+    note="Use-after-free style dependence is observed by ASan (DESIGN.md §8); content equality is content-id equality.",
+    technique="TLA+ two-model machine explored by TLC; every behaviour replayed on real objects under ASan; TLC trace validation of the recorded projections",
+    design="DESIGN.md §3.3, §4 C11")
+
 NOT_YET = {}
 
 
